@@ -29,7 +29,11 @@
 (*   404 -> one goroutine per remote: remoteClusterRequest, non-200 ->     *)
 (*   errorChan, 200 -> rewriteSignatures (hash computed while rewriting,   *)
 (*   compared with the requested one and with the record's own             *)
-(*   portable_data_hash) -> `success` channel / errorChan; first success   *)
+(*   portable_data_hash; since 139e9e0 a manifest that does not end with a *)
+(*   newline is refused first - the line-by-line re-serialisation would    *)
+(*   add one - which at this level is one more way for a "mismatch"        *)
+(*   answer, i.e. a manifest that does not hash to the requested value, to *)
+(*   end in RCheck's e502) -> `success` channel / errorChan; first success *)
 (*   wins and cancels the rest; all done -> 404 if all were 404 else 502.  *)
 (*   fetchRemoteCollectionByUUID (remote prefix only): rewriteSignatures   *)
 (*   with the record's own hash as the expectation, so a manifest that     *)
